@@ -97,12 +97,13 @@ def lake_build(targets):
     return rc == 0, out + err, time.time() - t0
 
 
-def print_axioms(thm_module, names):
+def print_axioms(thm_module, names, extra_modules=()):
     """Run `#print axioms` on every property theorem in a throw-away file; returns {name: [axioms]} and raw log."""
     os.makedirs(BUILD, exist_ok=True)
     path = os.path.join(BUILD, f"audit_{thm_module.split('.')[-1]}.lean")
     with open(path, "w") as f:
         f.write(f"import {thm_module}\n")
+        for m in extra_modules: f.write(f"import {m}\n")
         for n in names:
             f.write(f"#print axioms {n}\n")
     rc, out, err = sh(["lake", "env", "lean", path], cwd=LEAN, timeout=1800)
